@@ -2,7 +2,7 @@
 import ast
 
 from ..model import AnchorError, call_name, const_str, dotted, src
-from ..rules import FuncView, suffix_match
+from ..rules import FuncView, suffix_match, path_condition, formula_equiv
 
 EXPLANATION = (
     "In wrap1 and wrap2 every modification of the angle is dominated by the `wrap != 0` test (a wrap of zero "
@@ -60,6 +60,13 @@ def check(ctx):
               "the half-turn test compares signed values: for a negative wrap the first fold leaves the angle in (2*wrap, 0] "
               "and a signed comparison selects the wrong half, so the result leaves [-|wrap|, +|wrap|] (the function documents "
               "invariance to the sign of wrap)")
+    # the second fold moves the angle by half turns ((angle - wrap) % -wrap): it is a whole turn only strictly beyond the half turn
+    second = [s_ for s_ in V.stores("angle") if not (isinstance(s_.ast, ast.AugAssign) and "2" in src(s_.ast.value)) and "-" in src(s_.ast)]
+    V.need(second, "second fold of wrap2")
+    pc2 = ("or", [path_condition(V, s_, start=[V.cfg.entry.id], by_value=False) for s_ in second])
+    ctx.check(formula_equiv(pc2, "wrap != 0 and abs(angle) > abs(wrap)") or formula_equiv(pc2, "wrap != 0.0 and abs(angle) > abs(wrap)"),
+              "T9-symmetric", second[0].ast, "wrap2 folds a second time exactly when |angle| > |wrap| (strictly)",
+              "at exactly half a turn the second fold subtracts half a turn, not a whole one: wrap2(180) becomes 0")
     first = [s for s in V.stores("angle") if isinstance(s.ast, ast.AugAssign) and src(s.ast.value).replace(" ", "") in ("wrap*2.0", "wrap*2", "2.0*wrap", "2*wrap")]
     ctx.check(bool(first) and all(V.dominated(cmps, first) for _ in [0]), "T9-symmetric", w2, "wrap2 folds to the full circle (% (wrap * 2)) before the half-turn test", "")
     d = ctx.fn("aid.navigating", "delta")
